@@ -56,6 +56,10 @@ def cases(tier, seed, PROP):
         # one name used by objects of several TYPES, referred to through attributes that accept an object of any type
         for k in range(12 if tier == 'quick' else 200):
             yield {'stratum': 'same-name-across-types', 'index': k, 'kind': 'across-types'}
+        # an object of ANOTHER logical file (or no NO-FORMAT object at all) handed to a reference attribute / to
+        # add_no_format_frame_data: refused, or every reference resolves in its own logical file
+        for k in range(20 if tier == 'quick' else 400):
+            yield {'stratum': 'object-of-another-logical-file', 'index': k, 'kind': 'foreign-ref'}
         # the reference 0 given explicitly (to a second origin, to objects) while the defining origin has another one
         for k in range(12 if tier == 'quick' else 200):
             yield {'stratum': 'explicit-origin-reference-zero', 'index': k, 'kind': 'origin-zero'}
@@ -116,6 +120,38 @@ def _build_spec(case, PROP, r):
             sp['ops'].append({'op': 'comment', 'name': 'CM-NA', 'attrs': {'text': ['ascii', txt]}})
         else:
             sp['ops'].append({'op': 'zone', 'name': 'Z-NA', 'set_name': 'SET-' + txt, 'attrs': {}})
+        return sp
+    if k == 'foreign-ref':
+        sp = gen.base_spec(r.choice([512, 8192]), lfs=[{'fh_id': 'LF-A'}, {'fh_id': 'LF-B'}])
+        sp['write'] = {'output_chunk_size': 2 ** 16}
+        ops = sp['ops']
+        idx = {}
+        for lf_, tag in ((0, 'A'), (1, 'B')):
+            ops.append(gen.origin_op(f'ORIGIN-{tag}', lf=lf_, fsn=lf_ + 1)); ops[-1]['set_name'] = tag
+            ops.append(gen.channel_op(f'CH-{tag}', '<f8', (3,), lf=lf_, fill={'kind': 'pos', 'tag': lf_})); ops[-1]['set_name'] = tag
+            idx['ch' + tag] = len(ops) - 1
+            ops.append(gen.frame_op(f'FR-{tag}', [len(ops) - 1], lf=lf_)); ops[-1]['set_name'] = tag
+            same = r.random() < 0.5       # (same names in both files: a dangling reference would silently bind to the namesake)
+            for t in ('zone', 'axis', 'no_format', 'equipment'):
+                ops.append({'op': t, 'lf': lf_, 'name': (t.upper() if same else f'{t.upper()}-{tag}'), 'attrs': {}, 'set_name': tag})
+                idx[t + tag] = len(ops) - 1
+        what = r.choice(['parameter-zones', 'computation-axis', 'tool-parts', 'group', 'nf-data-foreign', 'nf-data-not-a-no-format', 'channel-axis'])
+        if what == 'parameter-zones':
+            ops.append({'op': 'parameter', 'lf': 0, 'name': 'P', 'set_name': 'A', 'attrs': {'zones': [{'$ref': idx['zoneB']}], 'values': [1.0]}})
+        elif what == 'computation-axis':
+            ops.append({'op': 'computation', 'lf': 0, 'name': 'C', 'set_name': 'A', 'attrs': {'axis': [{'$ref': idx['axisB']}]}})
+        elif what == 'tool-parts':
+            ops.append({'op': 'tool', 'lf': 0, 'name': 'T', 'set_name': 'A', 'attrs': {'parts': [{'$ref': idx['equipmentB']}], 'channels': [{'$ref': idx['chB']}]}})
+        elif what == 'group':
+            ops.append({'op': 'group', 'lf': 0, 'name': 'G', 'set_name': 'A', 'attrs': {'object_list': [{'$ref': idx['zoneB']}, {'$ref': idx['zoneA']}]}})
+        elif what == 'channel-axis':
+            ops.append({'op': 'assign', 'lf': 0, 'target': idx['chA'], 'target_op': 'channel', 'kw': 'axis', 'part': 'value', 'value': [{'$ref': idx['axisB']}]})
+        elif what == 'nf-data-foreign':
+            ops.append(gen.nf_data_op(idx['no_formatB'], b'payload for the other file', lf=0))
+            ops.append(gen.nf_data_op(idx['no_formatA'], b'payload for this file', lf=0))
+        else:
+            ops.append(gen.nf_data_op(idx['chA'], b'payload under a channel', lf=0))
+        case['foreign_what'] = what
         return sp
     if k == 'origin-zero':
         sp = gen.base_spec(r.choice([512, 8192]))
@@ -504,6 +540,9 @@ def run_case(case, PROP):
         bump('file-header-given-as-object')
     if run.data is not None and any(l.get('fh_identifier') not in (None, '0') for l in sp.get('lfs', [])):
         bump('file-header-identifier-chosen')
+    if case['kind'] == 'foreign-ref':
+        bump('object-of-another-logical-file')
+        bump('foreign:' + case.get('foreign_what', '?') + (':written' if run.data is not None else ':refused'))
     if case['kind'] == 'across-types' and run.data is not None:
         bump('same-name-across-types')
     if case['kind'] == 'same-named' and run.data is not None:
